@@ -83,17 +83,17 @@ PROPS = {
               MERGE_FILES + ["ZapProofs/Props/C08Facts.lean"]),
     "C10": _p([{"regress": "d9_empty_after_nonempty.script"}, {"gen": "C10"}, {"gen": "C10", "vectors": True, "seed_offset": 13},
                {"gen": "C10", "race": True, "seed_offset": 29, "n": {"quick": 12, "thorough": 200}}],
-              ["ZapProofs.Props.C10", "ZapProofs.Props.C11", "ZapProofs.Props.Codec"],
-              ["Zap.C10.c10SideCondition_holds", "Zap.C10.C10_complete", "Zap.C10.C10_resetSafe", "Zap.C10.C10_no_stale",
+              ["ZapProofs.Props.C10", "ZapProofs.Props.C11", "ZapProofs.Props.Codec", "ZapProofs.Props.PackageState"],
+              ["Zap.PackageState.package_state_known", "Zap.PackageState.package_state_classified", "Zap.C10.c10SideCondition_holds", "Zap.C10.C10_complete", "Zap.C10.C10_resetSafe", "Zap.C10.C10_no_stale",
                "Zap.C10.C10_builder_pool_shape", "Zap.C10.C10_builder_pool", "Zap.C11.C11_pool",
                "Zap.Props.Codec.intcoder_reuse"],
-              THEORY_FILES + ["ZapProofs/Props/C10.lean"],
+              THEORY_FILES + ["ZapProofs/Props/C10.lean", "ZapProofs/Props/PackageState.lean"],
               partial="data races in the Go memory-model sense are outside the Lean model (probed by the -race runs)"),
     "C11": _p([{"regress": "d2_pool_double_put.script"}, {"gen": "C11"},
                {"gen": "C11", "race": True, "seed_offset": 29, "n": {"quick": 12, "thorough": 200}}],
-              ["ZapProofs.Props.C11"],
-              ["Zap.C11.poolSideCondition_holds", "Zap.C11.C11_pool", "Zap.C11.Lockset.lockSideCondition_holds", "Zap.C11.Lockset.C11_lockset"],
-              THEORY_FILES + ["ZapProofs/Props/C11.lean"],
+              ["ZapProofs.Props.C11", "ZapProofs.Props.PackageState"],
+              ["Zap.PackageState.package_state_known", "Zap.PackageState.package_state_classified", "Zap.C11.poolSideCondition_holds", "Zap.C11.C11_pool", "Zap.C11.Lockset.lockSideCondition_holds", "Zap.C11.Lockset.C11_lockset"],
+              THEORY_FILES + ["ZapProofs/Props/C11.lean", "ZapProofs/Props/PackageState.lean"],
               partial="atomic steps at the granularity of extracted pool/lock events; Go memory model outside (probed by -race runs)"),
     "C12": _p([{"gen": "C12"}, {"gen": "C12", "vectors": True, "seed_offset": 13}], ["ZapProofs.Props.C12", "ZapProofs.Props.Codec"],
               ["Zap.C12_spec_meaning", "Zap.C12_synonyms", "Zap.C12_terms", "Zap.C12_unknown", "Zap.C12_not_in_dictionaries",
